@@ -245,11 +245,15 @@ macro_rules! combine_impls {
                                                         }
                                                     }
                                                     Message::Data(data) => {
-                                                        let n_data = if vals
-                                                            .load()
-                                                            .$idx
-                                                            .is_none()
-                                                        {
+                                                        // store the value before announcing it, so that
+                                                        // `n_data == 0` implies every slot is filled
+                                                        let first = vals.load().$idx.is_none();
+                                                        vals.rcu(move |vals| {
+                                                            let mut vals = (**vals).clone();
+                                                            vals.$idx = Some(data.clone());
+                                                            vals
+                                                        });
+                                                        let n_data = if first {
                                                             n_data.fetch_sub(
                                                                 1,
                                                                 AtomicOrdering::AcqRel,
@@ -259,11 +263,6 @@ macro_rules! combine_impls {
                                                                 AtomicOrdering::Acquire,
                                                             )
                                                         };
-                                                        vals.rcu(move |vals| {
-                                                            let mut vals = (**vals).clone();
-                                                            vals.$idx = Some(data.clone());
-                                                            vals
-                                                        });
                                                         if n_data == 0 {
                                                             call!(
                                                                 sink,
